@@ -244,6 +244,9 @@ Definition prop_req (c : e2e_case) (x : e2e_obs) : bool :=
       implb (x_bcount x =? 2) (String.eqb (x_bbody2 x) (x_bbody x)) &&
       String.eqb (x_bmethod x) (e_method c) &&
       opt_eqb pair_eqb (x_bparsed x) (Some (path, query)) &&
+      (* ... and in the client's own escaping (%2F is not /): the request-target made of the
+         escaped path and the raw query *)
+      match e_out_esc c with Some t => String.eqb (x_btarget x) t | None => true end &&
       opt_eqb String.eqb (x_bdec x) (Some want_b) && strs_eqb (x_brest x) want_rest &&
       implb (negb (a_on ra)) (String.eqb (x_bbody x) (e_body c)) &&
       forallb (fun k =>
